@@ -3,8 +3,10 @@
 package forwarder
 
 import (
+	"fmt"
 	"net"
 	"sync"
+	"time"
 
 	"github.com/khirono/go-nl"
 
@@ -14,6 +16,8 @@ import (
 	"github.com/free5gc/go-upf/internal/logger"
 )
 
+var vMuxDone sync.Map
+
 // VNewGtp5g assembles the real gtp5g driver around a simulated netlink endpoint: real nl.Mux, real
 // nl.Client / gtp5gnl request code, real perio.Server, real buffnetlink.Server (fed by the harness), real
 // UDP socket for re-injected packets. mk returns a fresh connection to the simulated kernel.
@@ -21,11 +25,14 @@ func VNewGtp5g(wg *sync.WaitGroup, mk func() nl.Conner, famID int, linkIndex int
 	g := &Gtp5g{log: logger.FwderLog.WithField("verif", "gtp5g")}
 	mux, err := nl.NewMux()
 	if err != nil {
-		return nil, err
+		return nil, fmt.Errorf("nl.NewMux: %w", err)
 	}
+	done := make(chan struct{})
+	vMuxDone.Store(g, done)
 	wg.Add(1)
 	go func() {
 		defer wg.Done()
+		defer close(done)
 		_ = mux.Serve()
 	}()
 	g.mux = mux
@@ -34,7 +41,7 @@ func VNewGtp5g(wg *sync.WaitGroup, mk func() nl.Conner, famID int, linkIndex int
 	g.psClient = &gtp5gnl.Client{Client: nl.NewClient(mk(), mux), ID: famID}
 	bs, err := buffnetlink.VNewServer(mux)
 	if err != nil {
-		return nil, err
+		return nil, fmt.Errorf("buffnetlink: %w", err)
 	}
 	g.bsnl = bs
 	ps, err := perio.OpenServer(wg)
@@ -57,4 +64,27 @@ func (g *Gtp5g) VQueryMulti(m map[uint64][]uint32) (map[uint64][]uint32, error) 
 		}
 	}
 	return out, err
+}
+
+// VCloseRaw releases the OS resources of the driver without going through the periodic server's event channel
+// (clean-up after a scheduler-controlled execution has ended).
+func (g *Gtp5g) VCloseRaw() {
+	if g.link != nil && g.link.conn != nil {
+		_ = g.link.conn.Close()
+	}
+	if g.bsnl != nil {
+		g.bsnl.Close()
+	}
+	if g.mux != nil {
+		g.mux.Close()
+		// go-nl's Mux closes one of its descriptors twice (Close and again when Serve returns): wait until Serve
+		// has returned before anything else opens descriptors, or the second close hits a stranger
+		if d, ok := vMuxDone.Load(g); ok {
+			select {
+			case <-d.(chan struct{}):
+			case <-time.After(5 * time.Second):
+			}
+			vMuxDone.Delete(g)
+		}
+	}
 }
